@@ -1,0 +1,100 @@
+//go:build verif
+
+// Contracts for package transport, checked by /verif/govc. This file contains
+// no code: with the verif tag off it is not compiled at all, with it on it adds
+// only comments.
+package transport
+
+/*@
+# components of the URL as net/url parsed it, captured when url.Parse returns
+ghost var gPath string
+ghost var gHost string
+ghost var gScheme string
+ghost var gUser *url.Userinfo
+ghost var gParseErr error
+ghost var gU *url.URL
+
+# ParseURL: exactly the components of the connect URL (C19)
+#   target = last path element of the upper-cased path, at least 3 characters
+#   digis  = the other path elements, upper-cased, in order
+#   host   = the host query parameter if present, else the URL host
+func transport.ParseURL(rawurl) (r, err)
+  props C19
+  call url.Parse set gU := $r0
+  call url.Parse set gPath := $r0.Path
+  call url.Parse set gHost := $r0.Host
+  call url.Parse set gScheme := $r0.Scheme
+  call url.Parse set gUser := $r0.User
+  call url.Parse set gParseErr := $r1
+  ensures parse-error: gParseErr != nil ==> r == nil && err == gParseErr
+  ensures ok-nonnil: err == nil ==> r != nil
+  ensures target: r != nil ==> same(r.Target, proj(path.Split(strings.ToUpper(gPath)), 1)) && len(r.Target) >= 3
+  ensures short-target: gParseErr == nil && len(proj(path.Split(strings.ToUpper(gPath)), 1)) < 3 ==> r == nil && err == ErrInvalidTarget
+  ensures scheme-user: r != nil ==> same(r.Scheme, gScheme) && r.User == gUser
+  ensures params: r != nil ==> r.Params == url.(*URL).Query(gU)
+  ensures host-param: r != nil && url.(Values).Get(r.Params, "host") != "" ==> same(r.Host, url.(Values).Get(r.Params, "host"))
+  ensures host-url: r != nil && url.(Values).Get(r.Params, "host") == "" ==> same(r.Host, gHost)
+  ensures digis-none: r != nil && Via(gPath) == "" ==> len(r.Digis) == 0
+  ensures digis-order: r != nil && Via(gPath) != "" ==> len(r.Digis) == len(strings.Split(Via(gPath), "/")) && (forall k :: 0 <= k && k < len(r.Digis) ==> same(r.Digis[k], splitElem(Via(gPath), "/", k)))
+  ensures digis-unsupported: r != nil && len(r.Digis) > 0 && (r.Scheme == "ardop" || r.Scheme == "telnet") ==> err == ErrDigisUnsupported
+  ensures digis-ok: r != nil && !(len(r.Digis) > 0 && (r.Scheme == "ardop" || r.Scheme == "telnet")) ==> err == nil
+
+# the digipeater part of the path: directory part of the upper-cased path without surrounding slashes
+pred Via(p) := strings.Trim(proj(path.Split(strings.ToUpper(p)), 0), "/")
+
+# ---------------------------------------------------------------------------
+# dialer registry: dispatch and lock discipline (C19)
+#   gLocked: ghost typestate of dialers.mu; every access to dialers.m must
+#   happen with the lock held and no path may leave it held.
+# ---------------------------------------------------------------------------
+ghost var gLocked bool
+ghost var gConn net.Conn
+ghost var gErr error
+ghost var gDialed bool
+
+func transport.DialURLContext(ctx, url) (conn, err)
+  props C19
+  requires url: url != nil
+  requires registry: haskey(dialers.m, url.Scheme) ==> dialers.m[url.Scheme] != nil
+  call sync.(*Mutex).Lock requires not-held: !gLocked
+  call sync.(*Mutex).Lock set gLocked := true
+  call sync.(*Mutex).Unlock requires held: gLocked
+  call sync.(*Mutex).Unlock set gLocked := false
+  mapaccess requires lock-held: gLocked
+  call transport.ContextDialer.DialURLContext requires registered: haskey(dialers.m, url.Scheme) && same($0, dialers.m[url.Scheme]) && $2 == url
+  call transport.ContextDialer.DialURLContext set gConn := $r0
+  call transport.ContextDialer.DialURLContext set gErr := $r1
+  call transport.ContextDialer.DialURLContext set gDialed := true
+  ensures unlocked: !gLocked
+  ensures missing: !old(haskey(dialers.m, url.Scheme)) ==> conn == nil && err == ErrMissingDialer && !gDialed
+  ensures dispatched: old(haskey(dialers.m, url.Scheme)) ==> gDialed && same(conn, gConn) && same(err, gErr)
+
+func transport.RegisterContextDialer(scheme, dialer) ()
+  props C19
+  call sync.(*Mutex).Lock requires not-held: !gLocked
+  call sync.(*Mutex).Lock set gLocked := true
+  call sync.(*Mutex).Unlock requires held: gLocked
+  call sync.(*Mutex).Unlock set gLocked := false
+  mapaccess requires lock-held: gLocked
+  ensures unlocked: !gLocked
+  ensures registered: haskey(dialers.m, scheme) && same(dialers.m[scheme], dialer)
+
+func transport.UnregisterDialer(scheme) ()
+  props C19
+  call sync.(*Mutex).Lock requires not-held: !gLocked
+  call sync.(*Mutex).Lock set gLocked := true
+  call sync.(*Mutex).Unlock requires held: gLocked
+  call sync.(*Mutex).Unlock set gLocked := false
+  mapaccess requires lock-held: gLocked
+  ensures unlocked: !gLocked
+  ensures removed: !haskey(dialers.m, scheme)
+
+func transport.RegisterDialer(scheme, dialer) ()
+  props C19
+  ensures registered: haskey(dialers.m, scheme)
+
+func transport.DialURL(url) (conn, err)
+  props C19
+  requires url: url != nil
+  requires registry: haskey(dialers.m, url.Scheme) ==> dialers.m[url.Scheme] != nil
+@*/
